@@ -16,7 +16,7 @@ func init() {
 	register(&propDef{
 		id: "C01",
 		meta: propMeta{
-			explanation: "Decides the shape-visible clause of 'requests reach only upstreams of the addressed endpoint': the endpoint identifier is threaded unchanged from the request to every table indexed by it, on the registering and the routing side, locally and across the inter-node hop. (R1) value identity of the key along the chain: route handlers pass EndpointIDFromRequest(c.Request) / c.Param(<the pattern's parameter>) to the proxy; HTTPProxy/TCPProxy pass their parameter to Select and on; the manager indexes localUpstreams and calls LookupEndpoint/NewNodeUpstream/Add/RemoveLocalEndpoint with the parameter resp. u.EndpointID(); EndpointID() returns a constructor-set field with no other store; the per-request context carries the selected upstream to the dial hook and the endpoint to the Director under matching keys; (R2) the gin route patterns equal the URL literals the client builds, and each handler reads the parameter its pattern declares; (R3) EndpointIDFromRequest returns the header value when non-empty, else the first label of a non-IP dotted host, else empty; (R4) the hop dials exactly the selected node's proxy address and the Director changes only scheme and host; NodeUpstream/ConnUpstream/AddConn are constructed/called only by Select resp. the upstream handler; (R5) the gossip key schema round-trips (C04.R2); (R6) the inter-node transport never reuses connections (DisableKeepAlives), since its dial hook picks the upstream per request and pooling is keyed by endpoint id only; (R7) what is gossiped is a version-ordered complete suffix (C02.R3), so settled routing information is complete. Not decided: 'once settled every node serves E' as a liveness statement (C03/C04), churn with in-flight requests.",
+			explanation: "Decides the shape-visible clause of 'requests reach only upstreams of the addressed endpoint': the endpoint identifier is threaded unchanged from the request to every table indexed by it, on the registering and the routing side, locally and across the inter-node hop. (R1) value identity of the key along the chain: route handlers pass EndpointIDFromRequest(c.Request) / c.Param(<the pattern's parameter>) to the proxy; HTTPProxy/TCPProxy pass their parameter to Select and on; the manager indexes localUpstreams and calls LookupEndpoint/NewNodeUpstream/Add/RemoveLocalEndpoint with the parameter resp. u.EndpointID(); EndpointID() returns a constructor-set field with no other store; the per-request context carries the selected upstream to the dial hook and the endpoint to the Director under matching keys; (R2) the gin route patterns equal the URL literals the client builds, and each handler reads the parameter its pattern declares; (R3) EndpointIDFromRequest returns the header value when non-empty, else the first label of a non-IP dotted host, else empty; (R4) the hop dials exactly the selected node's proxy address and the Director changes only scheme and host; NodeUpstream/ConnUpstream/AddConn are constructed/called only by Select resp. the upstream handler; (R5) the gossip key schema round-trips (C04.R2); (R6) the inter-node transport never reuses connections (DisableKeepAlives), since its dial hook picks the upstream per request and pooling is keyed by endpoint id only; (R7) what is gossiped is a version-ordered complete suffix (C02.R3), so settled routing information is complete. Not decided: 'once settled every node serves E' as a liveness statement (C03/C04), churn with in-flight requests. Second round: (R7) every path on which Select returned an upstream dials it or hands it to the reverse-proxy hop.",
 			ruleText:    "obligation = one call argument / table key / return / pattern / store; distinct = distinct keys",
 			assumptions: []string{"net/http.Transport pools idle connections per scheme+host (URL.Host = endpoint id here) unless DisableKeepAlives is set"},
 		},
@@ -38,7 +38,7 @@ func init() {
 	register(&propDef{
 		id: "C08",
 		meta: propMeta{
-			explanation: "Decides the structural clauses of 'HTTP proxying is transparent; gateway failures map to 400/502/504': (R1) the proxy's httputil.ReverseProxy runs in Director mode (not Rewrite, which cleans the query and drops X-Forwarded-*/Forwarded), its Director stores only URL.Scheme and URL.Host, and no ModifyResponse is installed; (R2) piko code on the proxy and agent handler chains does not edit live request/response header maps - every Header.Set/Add/Del or map write on a header value is on a Clone/fresh map, is the forward marker (C06.R2), or is piko's own error response; a header map parameter is classified at every call site (this rule found defect T1); (R3) the error handlers answer 504 exactly under errors.Is(err, context.DeadlineExceeded) and 502 otherwise, once per path, and the three sibling handlers agree; a failed Select answers 502 and returns before any proxying; a missing endpoint answers 400 and returns; (R4) the request handed to the reverse proxy carries context.WithTimeout(r.Context(), p.timeout) with its cancel deferred exactly when a timeout is configured and the request is not a WebSocket upgrade, and the agent's reverse proxy agrees. Not decided: what net/http/httputil does with a request (trusted), bodies, timing.",
+			explanation: "Decides the structural clauses of 'HTTP proxying is transparent; gateway failures map to 400/502/504': (R1) the proxy's httputil.ReverseProxy runs in Director mode (not Rewrite, which cleans the query and drops X-Forwarded-*/Forwarded), its Director stores only URL.Scheme and URL.Host, and no ModifyResponse is installed; (R2) piko code on the proxy and agent handler chains does not edit live request/response header maps - every Header.Set/Add/Del or map write on a header value is on a Clone/fresh map, is the forward marker (C06.R2), or is piko's own error response; a header map parameter is classified at every call site (this rule found defect T1); (R3) the error handlers answer 504 exactly under errors.Is(err, context.DeadlineExceeded) and 502 otherwise, once per path, and the three sibling handlers agree; a failed Select answers 502 and returns before any proxying; a missing endpoint answers 400 and returns; (R4) the request handed to the reverse proxy carries context.WithTimeout(r.Context(), p.timeout) with its cancel deferred exactly when a timeout is configured and the request is not a WebSocket upgrade, and the agent's reverse proxy agrees. Not decided: what net/http/httputil does with a request (trusted), bodies, timing. Second round: the proxy's errorResponse writes the status it is given before the body; (R5) error-arm contradiction rule over server/proxy; the C15 rule set runs with this check.",
 			ruleText:    "obligation = one store / header write site / return / phi operand; distinct = distinct keys",
 			assumptions: []string{"httputil.ReverseProxy in Rewrite mode rewrites RawQuery and strips forwarding headers (net/http/httputil source)"},
 		},
